@@ -81,3 +81,38 @@ Proof.
   - intro v. cbn. destruct (vnormsq b2 v); reflexivity.
   - intros tol a b. cbn. destruct b; [discriminate|]. rewrite andb_false_r. discriminate.
 Qed.
+
+(* constrained prolongation smoothing cannot change T * B_coarse: satisfy_constraints replaces each (block) row U_i of a search
+   direction, seen on the columns of its sparsity pattern, by  U_i - (U_i B_i) X_i B_i^H  with B_i the rows of the coarse
+   candidates on that pattern and X_i the inverse of the local Gram matrix B_i^H B_i; such a row annihilates the candidates,
+   so adding any multiple of the projected direction to a prolongator leaves its product with the candidates as it was, and a
+   direction that already satisfies the constraints is not changed.  Any commutative ring; B^H enters only through
+   X (B^H B) = 1, so real and complex data are covered.  (The check verifies X (B^H B) = 1 for the matrices compute_BtBinv
+   returns on the rows where it demands P B_c = B, and P B_c = B itself on every built prolongator.) *)
+From mathcomp Require Import all_ssreflect all_algebra.
+Require Import PV.Algebra.Constraints.
+Local Open Scope ring_scope.
+Theorem C10_constrained_update_preserves_candidates :
+  forall (F : comRingType) (r k c : nat) (Bs : 'M[F]_(k, c)) (Bh : 'M[F]_(c, k)) (X : 'M[F]_(c, c)),
+  X *m (Bh *m Bs) = 1%:M ->
+  forall (P U : 'M[F]_(r, k)) (a : F),
+  project Bs Bh X U *m Bs = 0 /\
+  (P + a *: project Bs Bh X U) *m Bs = P *m Bs /\
+  (U *m Bs = 0 -> project Bs Bh X U = U).
+Proof.
+move=> F r k c Bs Bh X XG P U a; split; [exact: project_annihilates|split].
+- exact: constrained_update_preserves.
+- exact: project_fixed.
+Qed.
+Print Assumptions C10_constrained_update_preserves_candidates.
+
+(* not vacuous: one candidate (1, 1) on a pattern of two columns over the rationals, X = 1/2 *)
+Example C10_constraints_example :
+  let Bs : 'M[rat]_(2, 1) := const_mx 1 in let Bh : 'M[rat]_(1, 2) := const_mx 1 in
+  let X : 'M[rat]_(1, 1) := const_mx (1 / 2%:R) in
+  X *m (Bh *m Bs) = 1%:M.
+Proof.
+move=> Bs Bh X. apply/matrixP => i j. rewrite !mxE big_ord1 !mxE big_ord_recl big_ord1 !mxE.
+by rewrite !ord1 eqxx.
+Qed.
+
